@@ -584,7 +584,7 @@ Proof.
   induction l as [|h t IH]; [trivial|]. cbn. intros H.
   rewrite concat_app. cbn. rewrite app_nil_r.
   apply nodup_app_intro; [apply IH; exact (nodup_app_r _ _ H) | exact (nodup_app_l _ _ H) |].
-  intros x Hx Hh. apply concat_rev_incl in Hx. exact (nodup_app_disj _ _ x H Hh Hx).
+  intros x Hx Hh. apply (proj1 (concat_rev_incl _ _)) in Hx. exact (nodup_app_disj _ _ x H Hh Hx).
 Qed.
 
 Lemma in_concat_firstn {A} n : forall (l : list (list A)) x, In x (concat (firstn n l)) -> In x (concat l).
@@ -609,7 +609,7 @@ Proof.
   apply nodup_app_intro.
   - apply NoDup_concat_rev. apply firstn_concat_NoDup. exact (nodup_app_l _ _ H).
   - exact (nodup_app_r _ _ H).
-  - intros x Hx Ho. apply concat_rev_incl in Hx. apply in_concat_firstn in Hx.
+  - intros x Hx Ho. apply (proj1 (concat_rev_incl _ _)) in Hx. apply in_concat_firstn in Hx.
     exact (nodup_app_disj _ _ x H Hx Ho).
 Qed.
 
